@@ -76,7 +76,7 @@ PROPS = {
     },
     'C10': {
         'verus': ['program_lines', 'program_state'],
-        'kani': [],
+        'kani': ['run_command'],
         'level': 'proof',
         'design_ref': 'DESIGN.md §6 C10',
     },
@@ -118,7 +118,7 @@ UNDECIDED = {
     'C19': ["the page script (abasic-web/ts/main.ts) is TypeScript: its protocol is an assumption, transliterated in L_page_protocol; the start-up loader (start_evaluating per line with no error check in between) violates the adapter's precondition when a line fails - outside this check's reach", "Interpreter::start_evaluating / evaluate_impl contract is assumed (AsRef<str>, Tokenizer)", "output record text (Display) and error text + caret: fmt, undecided"],
     'C07': ["a failing user-function call leaves its frame on the stack (expression.rs:91-97): evaluate_user_defined_function_call iterates with into_iter().enumerate(), which Verus has no specification for, and Kani cannot execute it through Interpreter - undecided, not reported by this check", "that STOP and the host break both reach Program::break_at_current_location (statement.rs:28, interpreter.rs:115) is read, not proved"],
     'C09': ["single-pass scans in statement.rs:90-106,343-353 rest on the cursor contracts plus an unverified reading of three loops"],
-    'C10': ["RUN arm of maybe_process_command (fresh Variables/Arrays; pending reply not cleared) is outside Verus"],
+    'C10': ["the RUN arm of maybe_process_command is outside Verus (fmt in sibling arms); Kani checks it for an empty stored program only (pending reply, state, tracing flag); fresh Variables/Arrays are two assignments of Default::default(), read not proved"],
     'C11': ["end_loop returning NEXT WITHOUT FOR on a missing loop; next_data_element rebuilding the cursor (closure) - read, not proved"],
     'C16': ["end_loop re-push; Arrays wrapper (maybe_create_default_array) - read, not proved"],
     'C18': [
